@@ -315,6 +315,33 @@ impl<'a> Page<'a> {
         }
     }
 
+    /// Like `internal_child_for_key`, but picks the leftmost child that can hold `target`:
+    /// a run of equal keys may straddle a split, so entries equal to a separator live on
+    /// both sides of it.
+    fn internal_leftmost_child_for_key(&self, target: &[u8]) -> Result<PageId> {
+        if self.kind()? != PageKind::Internal {
+            return Err(Error::WalProtocol("index page: not internal"));
+        }
+        // lower_bound: first separator >= target
+        let mut lo = 0usize;
+        let mut hi = self.cell_count();
+        while lo < hi {
+            let mid = (lo + hi) / 2;
+            let (k, _) = self.internal_cell_key_and_right_child(mid)?;
+            if k < target {
+                lo = mid + 1;
+            } else {
+                hi = mid;
+            }
+        }
+        if lo == 0 {
+            self.leftmost_child()
+        } else {
+            let (_, child) = self.internal_cell_key_and_right_child(lo - 1)?;
+            Ok(child)
+        }
+    }
+
     fn leaf_insert_at(&mut self, idx: usize, key: &[u8], payload: u64) -> Result<()> {
         if self.kind()? != PageKind::Leaf {
             return Err(Error::WalProtocol("index page: not leaf"));
@@ -530,6 +557,9 @@ impl BTree {
     ///
     /// This implementation only modifies the leaf page containing the key.
     /// It does NOT yet implement page merging or rebalancing (MVP).
+    ///
+    /// Entries with equal keys are not ordered by payload and may span several leaves, so
+    /// the run of `key` is scanned from its first entry.
     pub fn delete(&mut self, pager: &mut Pager, key: &[u8], payload: u64) -> Result<bool> {
         #[cfg(nervusdb_verif)]
         let _owner = nervusdb_api::verif::owner_scope("btree");
@@ -540,28 +570,29 @@ impl BTree {
             match kind {
                 PageKind::Leaf => {
                     let mut page = Page::new(&mut buf);
-                    // Use binary search to find exact match
-                    if let Ok(idx) =
-                        (0..page.cell_count())
-                            .collect::<Vec<_>>()
-                            .binary_search_by(|&i| {
-                                let (k, v) = page.leaf_cell_key_and_payload(i).unwrap();
-                                (k, v).cmp(&(key, payload))
-                            })
-                    {
-                        // Found it, delete in place
-                        page.delete_from_leaf(idx)?;
-                        pager.write_page(cur, &buf)?;
-                        return Ok(true);
-                    } else {
-                        // Not found in this leaf
+                    let mut idx = page.leaf_lower_bound(key)?;
+                    while idx < page.cell_count() {
+                        let (k, v) = page.leaf_cell_key_and_payload(idx)?;
+                        if k != key {
+                            return Ok(false);
+                        }
+                        if v == payload {
+                            page.delete_from_leaf(idx)?;
+                            pager.write_page(cur, &buf)?;
+                            return Ok(true);
+                        }
+                        idx += 1;
+                    }
+                    // The run may continue in the right sibling.
+                    let next = page.right_sibling();
+                    if next.as_u64() == 0 {
                         return Ok(false);
                     }
+                    cur = next;
                 }
                 PageKind::Internal => {
                     let page = Page::new(&mut buf);
-                    let (child, _) = page.internal_child_for_key(key)?;
-                    cur = child;
+                    cur = page.internal_leftmost_child_for_key(key)?;
                 }
             }
         }
@@ -847,6 +878,22 @@ impl BTree {
     }
 
     pub fn cursor_lower_bound<'a>(&self, pager: &'a Pager, key: &[u8]) -> Result<BTreeCursor<'a>> {
+        self.cursor_at(pager, key, false)
+    }
+
+    /// Cursor at the first entry `>= key` of the whole tree. Unlike `cursor_lower_bound`,
+    /// which lands in the rightmost leaf that can hold `key`, this also sees the part of a
+    /// run of equal keys that a split left in the leaves before it.
+    pub fn cursor_first_ge<'a>(&self, pager: &'a Pager, key: &[u8]) -> Result<BTreeCursor<'a>> {
+        self.cursor_at(pager, key, true)
+    }
+
+    fn cursor_at<'a>(
+        &self,
+        pager: &'a Pager,
+        key: &[u8],
+        leftmost: bool,
+    ) -> Result<BTreeCursor<'a>> {
         let mut cur = self.root;
         loop {
             let mut buf = pager.read_page(cur)?;
@@ -893,8 +940,11 @@ impl BTree {
                 }
                 PageKind::Internal => {
                     let page = Page::new(&mut buf);
-                    let (child, _) = page.internal_child_for_key(key)?;
-                    cur = child;
+                    cur = if leftmost {
+                        page.internal_leftmost_child_for_key(key)?
+                    } else {
+                        page.internal_child_for_key(key)?.0
+                    };
                 }
             }
         }
